@@ -63,6 +63,9 @@ func (ex *Exec) lockOp(c *callCtx, lock bool) Val {
 		return Val{}
 	}
 	held := ex.load(c.st, p).L[0]
+	if !ex.discover {
+		ex.lockSites = append(ex.lockSites, p)
+	}
 	if lock {
 		// blocking acquire: afterwards we hold it (self-deadlock is excluded by an obligation)
 		ex.store(c.st, p, boolVal("true"))
